@@ -2,11 +2,13 @@
 from checks import actors_common as ac
 
 THEOREMS = ['Poupool.C17.no_early_or_warm_stir', 'Poupool.C17.stirs_when_cold_or_unknown', 'Poupool.C17.filtration_pump_only_in_stir', 'Poupool.C17.swim_pump_only_in_stir']
+TIMING = ['Poupool.Timing.filtration_const_end_on_time', 'Poupool.Timing.filtration_const_last', 'Poupool.Timing.filtration_polls', 'Poupool.Timing.swim_wintering_stir', 'Poupool.Timing.swim_polls']
 MODULE = "Poupool.Properties.C17"
 
 
 def run(chk):
     ac.run_actor_property(chk, MODULE, THEOREMS, monitor_pids=["C17"], extra=globals().get("extra"))
+    ac.timing_theorems(chk, TIMING)
 
 
 def search(chk):
